@@ -849,6 +849,8 @@ impl LdapConnAsync {
                         }
                         if remove {
                             self.searchmap.remove(&id);
+                            let mut msgmap = self.msgmap.lock().expect("msgmap mutex (search done)");
+                            msgmap.1.remove(&id);
                         }
                     } else if let Some(tx) = self.resultmap.remove(&id) {
                         if let Err(e) = tx.send((tag, controls)) {
